@@ -5,6 +5,8 @@ from vlib.bitgen import hx
 from vlib.props.C04 import fps_bits
 
 ID = "C13"
+# the property speaks about accepted inputs (values / invariants); which error a rejected input gets is not part of it
+ERROR_IDENTITY_IRRELEVANT = True
 RULE = ("SPS with sizes and crop offsets from an extreme-value table (0, 1, around 2^27, 2^28, 2^31, 2^32-2) x chroma formats "
         "0..3 (+ profiles without chroma info) x separate planes x frame/field; all 256 values of profile_idc, of the "
         "constraint-flag byte and of level_idc; timing info with num_units/time_scale in {0,1,1001,2^32-1,random}. "
